@@ -48,6 +48,17 @@ FirstPair(lines, ts, i0, name) ==
     IF ks = {} THEN -1 ELSE CHOOSE k \in ks : \A j \in ks : k <= j
 NameOf(names, t) == IF Nm(t) = -1 \/ Nm(t) >= Len(names) THEN <<>> ELSE <<names[Nm(t) + 1]>>
 
+\* a column strictly inside a surrogate pair does not denote a character position: the statement
+\* ("token text is read at UTF-16 columns") does not define the text of such a token, and the code
+\* reads it differently on its forward scan (after the pair) and on its cached backward walk (at the
+\* pair).  Resolutions whose walk meets such a token are left free.
+RECURSIVE MidPairAt(_, _, _, _)
+MidPairAt(line, col, i, u) == IF i > Len(line) \/ u >= col THEN FALSE
+                              ELSE IF u + U16w(line[i]) > col THEN TRUE
+                              ELSE MidPairAt(line, col, i + 1, u + U16w(line[i]))
+MidPair(lines, t) == MidPairAt(LineOf(lines, Dl(t)), Dc(t), 1, 0)
+WalkMeetsMidPair(lines, ts, i0) == \E k \in 0..(i0 - 1) : k <= 128 /\ MidPair(lines, ts[i0 - k])
+
 \* the relation: a pair entirely within the 127 tokens at and before the landing token MUST be
 \* found, a pair that needs a token more than 128 back MUST NOT, the single boundary position in
 \* between is left free (the crate's lookup reports an index one too high for inexact hits, which
